@@ -8,7 +8,7 @@
    over the relational driving loop).  Sessions: their handle_input is this loop composed with the message handlers and the
    acknowledgement counter; for them the statement (modulo acknowledgements, DESIGN 10.4) is decided by the correspondence
    check on pairs of partitions (component `pair`). *)
-From RML Require Import Model.Base Model.Chunk Model.ChunkDe Proofs.ChunkDeProofs.
+From RML Require Import Model.Base Model.Chunk Model.ChunkDe Proofs.ChunkDeProofs Proofs.ChunkDeFuel Proofs.ChunkEndToEnd.
 Local Open Scope N_scope.
 
 Theorem C15_deserializer_partition_independent : forall p1 p2 s1 ms1 r1 s2 ms2 r2,
@@ -16,6 +16,16 @@ Theorem C15_deserializer_partition_independent : forall p1 p2 s1 ms1 r1 s2 ms2 r
   feed_all de_init p1 [] = (s1, ms1, r1) -> feed_all de_init p2 [] = (s2, ms2, r2) ->
   r1 <> Some DrvFuel -> r2 <> Some DrvFuel -> ms1 = ms2 /\ r1 = r2.
 Proof. exact feed_all_partition_independent. Qed.
+
+(* the same with no side condition: the driving loop's fuel is always adequate *)
+Theorem C15_deserializer_partition_independent_total : forall p1 p2,
+  concat p1 = concat p2 ->
+  snd (fst (feed_all de_init p1 [])) = snd (fst (feed_all de_init p2 [])) /\
+  snd (feed_all de_init p1 []) = snd (feed_all de_init p2 []).
+Proof. exact feed_all_partition_independent_total. Qed.
+
+Theorem C15_driving_loop_fuel_adequate : forall pieces s acc, snd (feed_all s pieces acc) <> Some DrvFuel.
+Proof. exact feed_all_fuel_adequate. Qed.
 
 (* from any quiescent state, in the relational (fuel-free) form *)
 Theorem C15_partition_independent_from_any_quiescent_state : forall s p1 p2 acc s1 ms1 r1 s2 ms2 r2,
@@ -36,6 +46,8 @@ Theorem C15_call_terminates : forall st input, snd (get_next_message st input) <
 Proof. exact get_next_message_terminates. Qed.
 
 Print Assumptions C15_deserializer_partition_independent.
+Print Assumptions C15_deserializer_partition_independent_total.
+Print Assumptions C15_driving_loop_fuel_adequate.
 Print Assumptions C15_partition_independent_from_any_quiescent_state.
 Print Assumptions C15_stage_prefix_stable.
 Print Assumptions C15_call_terminates.
